@@ -26,6 +26,8 @@ fn main() {
     let res = match prop.as_str() {
         "C01" => props::c01::run(&ctx),
         "C02" => props::c02::run(&ctx),
+        "C03" => props::c03::run(&ctx),
+        "C04" => props::c04::run(&ctx),
         "C05" => props::c05::run(&ctx),
         "C06" => props::c06::run(&ctx),
         "C07" => props::c07::run(&ctx),
@@ -34,6 +36,7 @@ fn main() {
         "C10" => props::c10::run(&ctx),
         "C11" => props::c11::run(&ctx),
         "C12" => props::c12::run(&ctx),
+        "C13" => props::c13::run(&ctx),
         other => {
             eprintln!("unknown property {}", other);
             std::process::exit(2);
